@@ -24,6 +24,9 @@ LayoutAlphabet ==
 BranchAlphabet ==
   { KW("branch"), Tok("BININT", "1"), Tok("BININT", "2"), KW(":"), KW("{"), KW("}"), KW("<"), KW(">"),
     Tok("ID", "g"), KW(";"), KW("NL"), KW("let") }
+\* iteration counts of loops and subcircuit blocks: zero, positive, a name, absent
+CountsAlphabet ==
+  { KW("subcircuit"), KW("loop"), Tok("INT", "0"), Tok("INT", "2"), Tok("INT", "-1"), Tok("ID", "a"), KW("{"), KW("}"), KW("<"), KW(">"), KW("NL") }
 NoStart == <<>>
 RegisterStart == << KW("register"), Tok("ID", "q"), KW("["), Tok("INT", "2"), KW("]"), KW("NL"), KW("register") >>
 BranchStart == << KW("branch"), KW("{"), Tok("BININT", "1"), KW(":"), KW("{") >>
